@@ -139,7 +139,7 @@ def h_cond(ctx):
         cl.append(('conditional must not raise for disjoint X, Y with matching x (%s: %s)' % (type(ex).__name__, ex), False))
         sym = [type(ex).__name__]
     return PathResult(outcome, cl, inputs=dict(mu=mu, S=S, x=xv, Y=Y, X=X, style=style, dtype=ctx.params.get('dtype', 'float')), call='conditional',
-                      info=dict(Y=Y, X=X, style=style), diff=(_real_cond, sym, dict(nice=True, tol=1e-6)))
+                      info=dict(Y=Y, X=X, style=style), diff=(None if outcome.startswith('singular') else (_real_cond, sym, dict(nice=True, tol=1e-6))))
 
 
 def h_cond_history(ctx):
